@@ -14,6 +14,7 @@ void h_spin_test_and_set_mu (void) {
 	vp_mu_init_ghost ((int) (vp_nondet_u32 () % 3), 0, vp_nondet_bool ());
 	vp_g.observer = vp_nondet_bool ();
 	vp_g.queued = vp_nondet_bool ();
+	vp_g.set_desig = vp_nondet_bool ();
 	the_mu.word = vp_mu_any_word ();
 	(void) nsync_spin_test_and_set_ (&the_mu.word, test, set, clear);
 	VP_CANARY ();
